@@ -190,7 +190,9 @@ def run_e2(res, tier):
         if op == "dispatch":
             o = obs[base]
             res.add(transitions=1, traces=1)
-            if o.get("res") == "ok":
+            if o.get("res") == "ok" and fam_basic.is_identity(m):
+                pass   # identity queries carry no echo; C02 judges their payload
+            elif o.get("res") == "ok":
                 try:
                     if m.kind == "query":
                         got = json.loads(json.loads(o["bin"])["echo"])
